@@ -30,8 +30,8 @@ SEEDS = {
         property="C14",
         change="_get_target_times builds the grid in ns but keeps the 1e-9 merge tolerance meant for relative time",
         needs="an evaluation time within 1e-10 (relative) of a multiple of dt without being equal to it, e.g. 0.3333333333 with duration 3000, dt 1000",
-        detected_by={"C21": "'times #k,#k+1 ... more than 5e-10*duration apart' and 'evaluation time e0 matches at most one grid time' (C14 itself assumes C21's grid contract and stays green: the grid is C21's clause)"},
-        strengthened="C21 counterexamples were found but did not replay (non-integer universal index from the relaxed encoding) -> soft integrality constraints when extracting the model",
+        detected_by={"C21": "'times #k,#k+1 ... more than 5e-10*duration apart' and 'evaluation time e0 matches at most one grid time'", "C14": "requested_times_on_grid_* (the grid cases, shared with C21 since round 2)"},
+        strengthened="C14's own check MISSED it at first (it took the grid as an input satisfying C21's contract); C21's counterexamples were found but did not replay (non-integer universal index from the relaxed encoding) -> soft integrality constraints when extracting the model; since round 2 the grid cases are part of C14 as well",
     ),
     "C19": dict(
         property="C19",
